@@ -513,4 +513,15 @@ def boundary_points(rm: RefModel, pt: dict, limit: int = 6):
 
     for e in rm.assigns.values():
         walk(e)
-    return out[:limit]
+    out = out[:limit]
+    # ... and copies that miss the boundary by a relative 1e-7 on either side (an equality or an ordering decided "up to a
+    # tolerance" gives itself away here: the two sides are different doubles, far closer than any sampled point comes)
+    near = []
+    for q in out:
+        for name, v in q.items():
+            if name in inputs and pt.get(name) != v:
+                for sgn in (1, -1):
+                    q2 = dict(q)
+                    q2[name] = v * (1 + sgn * 1e-7) + sgn * 1e-12
+                    near.append(q2)
+    return out + near[:2 * limit]
